@@ -137,6 +137,20 @@ func (u *universe) withDualRole() *universe {
 	return u
 }
 
+// withWellKnown adds content that the image specification itself singles out: the two-byte blob "{}" and an
+// artifact-style image whose config and only layer are the specification's "empty descriptor"
+// (application/vnd.oci.empty.v1+json). To the registry they are a blob and references like any other.
+// Returns the blob index and the manifest index.
+func (u *universe) withWellKnown() (*universe, int, int) {
+	u.Blobs = append(u.Blobs, []byte("{}"))
+	e := ocispec.DescriptorEmptyJSON
+	e.Data = nil
+	im := ocispec.Manifest{MediaType: mtImage, ArtifactType: "application/vnd.example.artifact", Config: e, Layers: []ociregistry.Descriptor{e}}
+	im.SchemaVersion = 2
+	u.Manifests = append(u.Manifests, uniManifest{"martifact", mtImage, mustJSON(im)})
+	return u, len(u.Blobs) - 1, len(u.Manifests) - 1
+}
+
 // Op is one transition of a registry history. JSON-serialisable for replay.
 type Op struct {
 	K     string `json:"k"`
@@ -228,22 +242,23 @@ func opsText(h []Op) []string {
 type alphabetConfig struct {
 	ReadsOp bool // "Reads": every read of the sweep performed as an operation of the history (replayed like the
 	// others), so that state built up by reading - a cache, a lazily computed field - is carried into later states
-	AltBlobMT   bool // also push blobs under a second media type (Op.Piece == "alt"); direct stacks only: HTTP does not carry a blob's media type
-	Repos       []string
-	BadRepo     bool // include an invalid repository name
-	Chunked     bool
-	MaxUploads  int
-	MaxUpload   int // max bytes per upload session
-	Manifests   []int
-	Blobs       []int
-	Deletes     bool
-	Mounts      bool
-	BadPushes   bool
-	UntaggedToo bool
-	Tags        []string // nil = all tags of the universe
-	FinishedOps bool     // also resume/write/cancel on committed or cancelled upload sessions
-	ExplicitIDs bool     // also start upload sessions under one caller-chosen ID in each repository
-	BadNames    []string // extra (hostile) repository names used for pushes, mounts and deletes
+	AltBlobMT         bool // also push blobs under a second media type (Op.Piece == "alt"); direct stacks only: HTTP does not carry a blob's media type
+	Repos             []string
+	BadRepo           bool // include an invalid repository name
+	Chunked           bool
+	MaxUploads        int
+	MaxUpload         int // max bytes per upload session
+	Manifests         []int
+	Blobs             []int
+	Deletes           bool
+	Mounts            bool
+	BadPushes         bool
+	UntaggedToo       bool
+	Tags              []string // nil = all tags of the universe
+	CancelAfterCommit bool     // Cancel on a committed session only (documented no-op), for stacks where FinishedOps is off
+	FinishedOps       bool     // also resume/write/cancel on committed or cancelled upload sessions
+	ExplicitIDs       bool     // also start upload sessions under one caller-chosen ID in each repository
+	BadNames          []string // extra (hostile) repository names used for pushes, mounts and deletes
 	// TwoHandles: an open session may be resumed into a second writer value (slot 1) while the first
 	// (slot 0) stays in the caller's hands, and both are then used in any order: a writer that was
 	// opened for an offset the session has since left must be refused (direct stacks only: over
